@@ -23,6 +23,7 @@ def run(prop, tier, seed, wd, t0):
     return fw.run_e1(prop, tier, seed, wd, t0, jobs, fw.COMMON_ASSUMPTIONS + [
         'per-stage decomposition with interface invariants (token stream ends in exactly one T_EOF; parser contracts); the composition is an argument, not a solver result',
         'scanner automaton totality (every byte string is tokenised, no infinite loop in the matching loop) is part of C14',
+        'the scan stage (Theo::scan with a script lexer: include stack, buffers released, result shape) is executed by the C15 check (harness/scan_h.cpp, assertions tagged C02 there); a failure there is printed as a violation of C15',
         'the LR table generator on symbolic user patterns, flex buffer management and allocation failure are outside (DESIGN.md 8)'],
         'Every stage of compile() that could be encoded is executed symbolically with all library preconditions (back()/pop_back() on empty, index out of range, end() dereference, null '
         'dereference) and pointer checks as assertions, unwinding assertions for termination, and the result-shape predicate of its interface.', extra=extra)
